@@ -149,6 +149,18 @@ func (r rec) judge(scalar, u []byte, apis string, extra map[string]any) {
 	r.judgeWant(scalar, u, refX25519(scalar, u), apis, extra)
 }
 
+// with returns extra plus the given key/value pairs
+func with(extra map[string]any, kv ...any) map[string]any {
+	d := map[string]any{}
+	for k, v := range extra {
+		d[k] = v
+	}
+	for i := 0; i+1 < len(kv); i += 2 {
+		d[kv[i].(string)] = kv[i+1]
+	}
+	return d
+}
+
 // judgeWant: want = the RFC 7748 value, already computed by the caller
 func (r rec) judgeWant(scalar, u, want []byte, apis string, extra map[string]any) {
 	isZero := bytes.Equal(want, zero32)
@@ -170,7 +182,7 @@ func (r rec) judgeWant(scalar, u, want []byte, apis string, extra map[string]any
 			case !isZero && err != nil:
 				r.viol("x25519-error-for-nonzero-output", "X25519 returned an error although the RFC 7748 value is not all zero: "+err.Error(), scalar, u, extra)
 			case !isZero && !bytes.Equal(out, want):
-				r.viol("x25519-differs-from-rfc7748", "X25519 returned a value different from the RFC 7748 function", scalar, u, map[string]any{"got": hex.EncodeToString(out), "want": hex.EncodeToString(want)})
+				r.viol("x25519-differs-from-rfc7748", "X25519 returned a value different from the RFC 7748 function", scalar, u, with(extra, "got", hex.EncodeToString(out), "want", hex.EncodeToString(want)))
 			}
 		}
 		if apis == "all" || apis == "ScalarMult" {
@@ -187,7 +199,7 @@ func (r rec) judgeWant(scalar, u, want []byte, apis string, extra map[string]any
 				if isZero {
 					what, sig = "ScalarMult did not write all zeros although the RFC 7748 value is all zero", "scalarmult-dst-not-zeroed"
 				}
-				r.viol(sig, what, scalar, u, map[string]any{"got": hex.EncodeToString(dst[:]), "want": hex.EncodeToString(want)})
+				r.viol(sig, what, scalar, u, with(extra, "got", hex.EncodeToString(dst[:]), "want", hex.EncodeToString(want)))
 			}
 			if !bytes.Equal(s[:], scalar) || !bytes.Equal(pt[:], u) {
 				r.viol("x25519-inputs-modified", "ScalarMult modified its inputs", scalar, u, extra)
